@@ -91,6 +91,13 @@ def gen_media(ch, spec):
         from ..net import Profile
         cfg["s2r_other"] = Profile(base=base).to_json()
         cfg["r2s"] = Profile(base=base).to_json()
+    if ch.chance("cfg", 0.3):
+        # feedback kept back for seconds: retransmission requests for packets that have left the sender's history by
+        # then (the history must forget them with origins at the wrap exactly as it does with small ones)
+        cfg["hold_feedback"] = {"cls": "srtcp", "from": ch.choice("cfg", [1, 2, 4, 8]), "count": ch.choice("cfg", [8, 20]),
+                                "dur": ch.choice("cfg", [3.0, 6.0])}
+    else:
+        cfg.pop("hold_feedback", None)
     cfg["origin"] = "low"
     cfg["seq0"], cfg["ts0"] = ch.randint("cfg", 0, 300, 1), ch.randint("cfg", 0, 100000, 5)
     cfg["rtx_seq0"] = 5
@@ -187,7 +194,21 @@ def run(spec):
             la = [project_media(r) for r in la if keep(r)]
             lb = [project_media(r) for r in lb if keep(r)]
         diff = first_difference(la, lb)
-        if sub:
+        late = None
+        if kind == "media":
+            # a packet that arrives 100 or more positions late restarts the jitter buffer (known finding F24); what
+            # happens then depends on the order of the late packets, and a NACK lists them in numeric order, which
+            # differs across the wrap.  Both runs in that regime: nothing to compare.  Only one of them: the late packet
+            # itself is the difference.
+            la100 = bool(wa.probes.get("packet_100_or_more_late"))
+            lb100 = bool(wb.probes.get("packet_100_or_more_late"))
+            if la100 and lb100:
+                late = "both"
+            elif la100 != lb100:
+                late = "one"
+        if late == "both":
+            wa.exempt["both_runs_had_a_packet_100_or_more_late"] += 1
+        elif sub:
             # the small-origin run already breaks its own property: not an origin effect
             wa.exempt["base_run_violates_" + sub[0]["property"]] += 1
         elif diff is not None:
@@ -195,7 +216,9 @@ def run(spec):
             ka, kb = kind_of(ea), kind_of(eb)
             layer = "wire" if "dg" in (ka, kb) and ka == kb else "behaviour"
             why = ""
-            if subb:
+            if late == "one":
+                why = ":a-packet-100-or-more-late-in-one-run-only"
+            elif subb:
                 why = ":" + subb[0]["property"] + ":" + subb[0]["signature"]
             wa.violation("C17", "%s:diverges-with-origins-at-wrap:%s%s" % (kind, layer, why),
                          "event %d: small origins %s | origins at wrap %s%s" % (
